@@ -44,7 +44,7 @@ TraceInit ==
 p0 == "A"
 Silent ==
     /\ \/ SP!Start(p0) \/ SP!Scan(p0) \/ SP!Etag(p0) \/ SP!ReadFile(p0) \/ SP!ReadIndex(p0)
-       \/ SP!ReadTree(p0) \/ SP!ReadHead(p0) \/ SP!CheckRef(p0) \/ SP!WriteFile1(p0)
+       \/ SP!ReadTree(p0) \/ SP!ReadHead(p0) \/ SP!CheckRef(p0) \/ SP!WriteFile1(p0) \/ SP!CleanLock(p0)
        \/ (SP!AddBlob(p0) /\ ~New(SP!BlobObj(SP!Op(p0).b)))
        \/ (SP!AddTree(p0) /\ ~New(SP!TreeObj(loc[p0].idx)))
        \/ (SP!AddCommit(p0) /\ ~New(SP!Commit(loc[p0].tree, loc[p0].parent)))
